@@ -4,6 +4,20 @@ import json, os
 PROPS = [json.loads(l)['id'] for l in open('/verif/properties.jsonl')]
 
 CLAIMED = {
+ 'C07': dict(
+   category='proof',
+   text=('PARTIAL proof + exact correspondence. Proved in Coq on the sign layer shared by generate_mpo, measure_2site and measure_nsite (all lengths, repetitions, orders, '
+         'charges, fermionic flag forms): the ordering sign is the inversion parity of the site sequence weighted by charge products; exchanging two neighbouring operators '
+         'on different sites changes the exponent by exactly the fermionic exchange sign while operators on one site pass for free; the pair sign of measure_2site is the '
+         'swap sign iff i > j; bosonic flags give no signs. NOT proved: dressed operators / string charges, MPO assembly incl. SVD compression, charge-carrying environments, '
+         'rdm, sample -- the dense matrix of generate_mpo (single terms exactly, sums within 1e-10; any order, repeated sites, amplitudes, custom fermionic maps) is compared '
+         'with sums of explicit Jordan-Wigner products, and measure_1site / measure_2site (10 bond patterns) / measure_nsite / rdm / sample probabilities with the dense '
+         'state, for every predefined fermionic and spin family and symmetry; on-site algebra of every operator family is enumerated.'),
+   design_ref='DESIGN.md section 6 C07',
+   note=('Trusted: Coq kernel, no axioms; the sign model is tied to the code through the C05 correspondence; Jordan-Wigner oracle written in NumPy in the harness; terms '
+         'whose same-site operator product vanishes identically are not generated (generate_mpo cannot represent a zero operator block); two-site fermionic rdm is '
+         'compared on single sites only (its basis carries convention-dependent string signs).'),
+   technique='Coq proof (ordering-sign laws by induction) + exact / toleranced Jordan-Wigner correspondence'),
  'C06': dict(
    category='proof',
    text=('PARTIAL proof + exact correspondence. Proved in Coq for EVERY chain length >= 2, bond-dimension profile, local dimension and configuration: the direct-sum '
